@@ -402,10 +402,3 @@ mod replay {
     use super::*;
     include!(concat!(env!("VERIF_REPLAY_DIR"), "/ntp_proto__config.rs"));
 }
-
-
-#[cfg(all(kani, test))]
-mod replay {
-    use super::*;
-    include!(concat!(env!("VERIF_REPLAY_DIR"), "/ntp_proto__config.rs"));
-}
